@@ -510,7 +510,9 @@ class Server(utils.EventEmitter):
                 logger.warning(color('!!! GATT Indicate timeout', 'red'))
                 raise TimeoutError(f'GATT timeout for {indication.name}') from error
             finally:
-                self.pending_confirmations[bearer] = None
+                # The bearer's state is gone if it was disconnected in the meantime
+                if bearer in self.pending_confirmations:
+                    self.pending_confirmations[bearer] = None
 
     async def _notify_or_indicate_subscribers(
         self,
